@@ -192,6 +192,8 @@ def _match(exp, out, env, W):
                     coll0(x)
         coll0(out[1])
         return _ret_call_verdict(exp, labels)
+    if kind == "opaque_ok":
+        return True if out[0] == "opaque" else False
     if out[0] == "opaque" or out[0] == "unknown":
         return None
     if kind == "panic":
@@ -249,7 +251,8 @@ def _match(exp, out, env, W):
     if kind == "pred":
         if val is guards.OPAQUE:
             return None
-        return bool(exp[1](val))
+        r_ = exp[1](val)
+        return None if r_ is None else bool(r_)
     if kind in ("errv", "okv"):
         if val is guards.OPAQUE:
             return None
@@ -311,6 +314,7 @@ def g_row(K, prop, fid, reps, tag="", inst=None, cparams=None):
         sample = None
         for n in WORLDS:
             W = guards.World(n, cparams)
+            W.K = K
             env = env_fn(W)
             exp = exp_fn(W, env)
             o, path = guards.outcome(tree, env, W)
